@@ -457,6 +457,12 @@ pub enum Decision {
     /// that crosses the mark is short, every later one fails with ENOSPC. Like the read error: a
     /// run that meets it may fail loudly; it may not complete with a different table.
     WriteFault { at: u64 },
+    /// (round 13) the `at`-th path-based metadata query of this run (`stat`: `fs::metadata`,
+    /// `Path::exists/is_dir/is_file`, `DirEntry::metadata`) fails with EIO - a flaky mount, a
+    /// stale NFS handle. `Path::is_dir()` and friends turn that into `false`, as std does. Same
+    /// rule as for the read error: a run that meets it may fail loudly; it may not complete with
+    /// a different table.
+    StatFault { at: u64 },
 }
 
 /// length of each generator's output under the default schedule (layout, likely): where the
@@ -483,6 +489,7 @@ impl Decision {
             Decision::FdLimit { n } => *n == DEFAULT_FD_LIMIT,
             Decision::ReadFault { at } => *at == NO_FAULT,
             Decision::WriteFault { at } => *at == NO_FAULT,
+            Decision::StatFault { at } => *at == NO_FAULT,
         }
     }
     pub fn defaulted(&self) -> Decision {
@@ -514,6 +521,7 @@ impl Decision {
             Decision::FdLimit { .. } => Decision::FdLimit { n: DEFAULT_FD_LIMIT },
             Decision::ReadFault { .. } => Decision::ReadFault { at: NO_FAULT },
             Decision::WriteFault { .. } => Decision::WriteFault { at: NO_FAULT },
+            Decision::StatFault { .. } => Decision::StatFault { at: NO_FAULT },
         }
     }
     /// scheduling deviations live in their own stream (keyed by step), `Open` decisions are keyed
@@ -585,6 +593,8 @@ pub struct Profile {
     pub read_fault: bool,
     /// the output device fills up in this run: seed of the byte count it still accepts (0 = never)
     pub write_fault: u64,
+    /// one path-based metadata query of this run fails with EIO: seed of which one (0 = none)
+    pub stat_fault: u64,
     /// covering family only: the machine's core count (0 = the default)
     pub cover_cores: u32,
 }
@@ -602,6 +612,7 @@ impl Profile {
         biased: false,
         read_fault: false,
         write_fault: 0,
+        stat_fault: 0,
         cover_cores: 0,
     };
 
@@ -641,6 +652,7 @@ impl Profile {
             biased: false,
             read_fault: false,
         write_fault: 0,
+        stat_fault: 0,
         cover_cores: 0,
         }
     }
@@ -688,6 +700,7 @@ impl Profile {
             biased: false,
             read_fault: false,
         write_fault: 0,
+        stat_fault: 0,
         cover_cores: 0,
         }
     }
@@ -881,6 +894,7 @@ pub struct RunStats {
     pub read_faults_injected: u64,
     /// runs in which the output device filled up (ENOSPC) while the program was writing
     pub write_faults_injected: u64,
+    pub stat_faults_injected: u64,
 }
 
 impl RunStats {
@@ -923,6 +937,7 @@ impl RunStats {
         self.parallel_stages += o.parallel_stages;
         self.read_faults_injected += o.read_faults_injected;
         self.write_faults_injected += o.write_faults_injected;
+        self.stat_faults_injected += o.stat_faults_injected;
     }
 }
 
@@ -1023,6 +1038,10 @@ pub struct Inodes {
     pub next: u64,
     /// open handles per inode
     pub open: BTreeMap<u64, u32>,
+    /// (round 13) advisory whole-file locks (`File::lock`, `flock`): inode -> (pid of the holder,
+    /// exclusive?, holders). A lock dies with its process; the table is shared with a second
+    /// instance, which finds the running instance's locks taken.
+    pub flocks: BTreeMap<u64, (u32, bool, u32)>,
 }
 
 pub fn orphan_key(ino: u64) -> String {
@@ -1132,6 +1151,11 @@ pub struct World {
     pub out_budget: Option<u64>,
     /// a write of this run met the full device: failing loudly is fine
     pub write_faulted: bool,
+    /// (round 13) which path-based metadata query fails with EIO in this run, how many were seen
+    pub stat_fault_decided: bool,
+    pub stat_fault_at: Option<u64>,
+    pub stats_seen: u64,
+    pub stat_faulted: bool,
     /// 0 = generate_layout, 1 = generate_likelysubtags (index into OUT_LEN_HINT)
     pub gen_index: usize,
     pub intruded: bool,
@@ -1244,6 +1268,10 @@ impl World {
             write_fault_decided: false,
             out_budget: None,
             write_faulted: false,
+            stat_fault_decided: false,
+            stat_fault_at: None,
+            stats_seen: 0,
+            stat_faulted: false,
             gen_index: 0,
             intruded: false,
             intruder_result: None,
@@ -1324,12 +1352,43 @@ impl World {
             None => false,
         };
         if gone {
+            self.funlock(ino);
             self.inodes.open.remove(&ino);
             if let Some(None) = self.inodes.names.get(&ino) {
                 // last handle of an unlinked file: its content goes away
                 self.inodes.names.remove(&ino);
                 self.written.remove(&orphan_key(ino));
             }
+        }
+    }
+    /// `flock`-style lock on an open inode: Ok(()) taken, Err(()) held by another process
+    pub fn flock(&mut self, ino: u64, exclusive: bool) -> Result<(), ()> {
+        let pid = self.pid;
+        match self.inodes.flocks.get_mut(&ino) {
+            Some((p, ex, n)) if *p == pid => {
+                // conversion / another descriptor of the same process: granted
+                *ex = exclusive;
+                *n = (*n).max(1);
+                Ok(())
+            }
+            Some((_, ex, n)) => {
+                if !*ex && !exclusive {
+                    *n += 1;
+                    Ok(())
+                } else {
+                    Err(())
+                }
+            }
+            None => {
+                self.inodes.flocks.insert(ino, (pid, exclusive, 1));
+                Ok(())
+            }
+        }
+    }
+    pub fn funlock(&mut self, ino: u64) {
+        let pid = self.pid;
+        if matches!(self.inodes.flocks.get(&ino), Some((p, _, _)) if *p == pid) {
+            self.inodes.flocks.remove(&ino);
         }
     }
     /// where the content of an open inode lives right now
@@ -1803,6 +1862,9 @@ impl World {
         if self.hard.is_some() && !self.gating_fault {
             return; // a run of the non-gating hard-fault exploration has its one fault already
         }
+        if self.stat_fault_at.is_some() {
+            return; // one hard fault per run
+        }
         let at = match &mut self.mode {
             Mode::Random { profile, .. } => {
                 if profile.write_fault != 0 && profile.cover_iter.is_none() {
@@ -1835,6 +1897,53 @@ impl World {
             self.event("write_fault_planned", at, 0);
             self.trace.push(Decision::WriteFault { at });
         }
+    }
+
+    /// A path-based metadata query (`stat`): does this one fail with EIO? Decided at the first
+    /// query of a run; never in a run that has another hard fault.
+    pub fn stat_fails_now(&mut self) -> bool {
+        if !self.stat_fault_decided {
+            self.stat_fault_decided = true;
+            if self.hard.is_none() && self.out_budget.is_none() {
+                let at = match &mut self.mode {
+                    Mode::Random { profile, .. } => {
+                        if profile.stat_fault != 0 && profile.cover_iter.is_none() {
+                            let mut r = Rng::new(profile.stat_fault);
+                            if r.chance(1, 2) {
+                                r.below(4)
+                            } else {
+                                r.below(720)
+                            }
+                        } else {
+                            NO_FAULT
+                        }
+                    }
+                    Mode::Replay(ReplayPlan { q, .. }) => match q.front() {
+                        Some(Decision::StatFault { at }) => {
+                            let a = *at;
+                            q.pop_front();
+                            a
+                        }
+                        _ => NO_FAULT,
+                    },
+                };
+                if at != NO_FAULT {
+                    self.stat_fault_at = Some(at);
+                    self.event("stat_fault_planned", at, 0);
+                    self.trace.push(Decision::StatFault { at });
+                }
+            }
+        }
+        let idx = self.stats_seen;
+        self.stats_seen += 1;
+        if self.frozen || self.stat_faulted || self.stat_fault_at != Some(idx) {
+            return false;
+        }
+        self.stat_faulted = true;
+        self.stats.stat_faults_injected += 1;
+        crate::isolate::child_fault_notice();
+        self.event("stat_eio", idx, 0);
+        true
     }
 
     /// The program hands `len` bytes to its output device (stdout or a file it writes). Returns
